@@ -246,11 +246,15 @@ func (g *gen) record(kind, owner string, names []string, d docResult, tr []strin
 
 var scalarTypes = []string{"int", "string", "bool", "float64", "[]byte", "map[string]int", "func(e int, s string) error", "struct{ X, Y int }", "func() (n int, err error)", "interface{ M(a int) }"}
 
-func (g *gen) fields(owner string) {
+func (g *gen) fields(owner string) { g.fieldsAt(owner, "\t", 0) }
+
+// fieldsAt emits the field list of a struct at indentation ind; owner is the path of field names from the declared
+// type down to this struct ("S3", "S3/F7" for the anonymous struct type of field F7 of S3).
+func (g *gen) fieldsAt(owner, ind string, depth int) {
 	n := 1 + g.r.Intn(6)
 	g.prevTrailing = ""
 	for i := 0; i < n; i++ {
-		d := g.doc("\t", false)
+		d := g.doc(ind, false)
 		if d.shape != "none" {
 			// a doc comment line breaks the adjacency with the previous trailing comment
 			if d.shape != "detached" && d.shape != "detached-block" {
@@ -266,15 +270,37 @@ func (g *gen) fields(owner string) {
 		}
 		_ = prev
 		var names []string
-		switch g.r.Intn(5) {
-		case 0:
+		switch pick := g.r.Intn(6); {
+		case pick == 0:
 			names = []string{g.name("F"), g.name("G")}
-			g.emit("\t" + strings.Join(names, ", ") + " " + scalarTypes[g.r.Intn(len(scalarTypes))] + tr)
+			g.emit(ind + strings.Join(names, ", ") + " " + scalarTypes[g.r.Intn(len(scalarTypes))] + tr)
+		case pick == 1 && depth < 2:
+			// a field whose type is (built from) a multi-line anonymous struct: its own fields are documented too
+			names = []string{g.name("N")}
+			g.emit(ind + names[0] + " " + []string{"", "*", "[]", "map[string]", "[2]"}[g.r.Intn(5)] + "struct {")
+			es := g.record("field", owner, names, d, nil, "none", fmt.Sprintf("i%d", min(i, 2))+"|nested-struct")
+			g.fieldsAt(owner+"/"+names[0], ind+"\t", depth+1)
+			if g.r.Intn(2) == 0 {
+				mk := g.mark()
+				g.emit(ind + "} // " + mk)
+				for _, e := range es {
+					e.AltTrailing = []string{mk}
+				}
+				g.prevTrailing = "line-after-multiline"
+			} else {
+				g.emit(ind + "}")
+				g.prevTrailing = ""
+			}
+			continue
 		default:
 			names = []string{g.name("F")}
-			g.emit("\t" + names[0] + " " + scalarTypes[g.r.Intn(len(scalarTypes))] + tr)
+			g.emit(ind + names[0] + " " + scalarTypes[g.r.Intn(len(scalarTypes))] + tr)
 		}
-		g.record("field", owner, names, d, trl, trs, fmt.Sprintf("i%d", min(i, 2)))
+		kindPos := fmt.Sprintf("i%d", min(i, 2))
+		if depth > 0 {
+			kindPos += fmt.Sprintf("|nested-depth-%d", depth)
+		}
+		g.record("field", owner, names, d, trl, trs, kindPos)
 		g.prevTrailing = trs
 		if g.r.Intn(6) == 0 {
 			g.emit("")
@@ -492,9 +518,15 @@ func (p *prop) runLayout(c core.Case, w *core.Worker, res *core.Result) {
 		}
 		var obj types.Object
 		if e.Kind == "field" {
-			owner := pkg.Pkg().Scope().Lookup(e.Owner)
-			st := owner.Type().Underlying().(*types.Struct)
-			for i := 0; i < st.NumFields(); i++ {
+			path := strings.Split(e.Owner, "/")
+			var st *types.Struct
+			if owner := pkg.Pkg().Scope().Lookup(path[0]); owner != nil {
+				st, _ = owner.Type().Underlying().(*types.Struct)
+			}
+			for _, fn := range path[1:] {
+				st = structOfField(st, fn)
+			}
+			for i := 0; st != nil && i < st.NumFields(); i++ {
 				if st.Field(i).Name() == e.Name {
 					obj = st.Field(i)
 				}
@@ -619,6 +651,39 @@ func (p *prop) runLayout(c core.Case, w *core.Worker, res *core.Result) {
 		e := g.out[len(g.out)/2]
 		res.Sample(map[string]any{"decl": e.Kind + " " + e.Name, "shape": e.Shape, "expected_doc": e.Doc, "expected_tags": e.Tags, "expected_trailing": e.Trailing}, 1)
 	}
+}
+
+// structOfField: the anonymous struct type that field name of st is built from (behind pointer / slice / array / map).
+func structOfField(st *types.Struct, name string) *types.Struct {
+	if st == nil {
+		return nil
+	}
+	for i := 0; i < st.NumFields(); i++ {
+		if st.Field(i).Name() != name {
+			continue
+		}
+		t := st.Field(i).Type()
+		for {
+			switch x := t.(type) {
+			case *types.Pointer:
+				t = x.Elem()
+				continue
+			case *types.Slice:
+				t = x.Elem()
+				continue
+			case *types.Array:
+				t = x.Elem()
+				continue
+			case *types.Map:
+				t = x.Elem()
+				continue
+			case *types.Struct:
+				return x
+			}
+			return nil
+		}
+	}
+	return nil
 }
 
 // ---------------------------------------------------------------------------------------
